@@ -439,9 +439,9 @@ def wal_confinement(ctx, p):
                          {'table::ValueTable::enact_plan', 'table::ValueTable::do_init_with_entry'},
                          'TableFile::write_at (raw mmap write) is called only by the value-table applier (exception: do_init_with_entry writes the btree header of a table file that did not exist before, at column creation)',
                          required=['table::ValueTable::enact_plan'])
-    lib.callers_confined(ctx, p + 'e raw-mmap-writers', F, ['std::slice::from_raw_parts_mut', 'core::slice::from_raw_parts_mut'],
+    lib.callers_confined(ctx, p + 'e raw-mmap-writers', F, ['std::slice::from_raw_parts_mut', 'core::slice::from_raw_parts_mut', 're:Atomic.*::from_ptr$'],
                          {'file::TableFile::write_at', 'index::IndexTable::enact_plan', 'ref_count::RefCountTable::enact_plan'},
-                         'raw mutable views of a mapping are created only in the three appliers',
+                         'raw mutable views of a mapping (a mutable slice, an atomic cell over an entry) are created only in the three appliers',
                          required=['file::TableFile::write_at', 'index::IndexTable::enact_plan', 'ref_count::RefCountTable::enact_plan'])
     # other ways to mutate a mapping: DerefMut / as_mut_ptr / copy_from_slice through MmapMut
     mm = sorted(F.direct_callers_of('re:memmap2::MmapMut as std::ops::DerefMut>::deref_mut', 're:MmapMut.*::as_mut_ptr$', 're:MmapMut as std::convert::AsMut'))
@@ -2363,3 +2363,70 @@ def workers_own_tree_lock_is_not_a_reader(ctx, p):
         ctx.ob(p + 'b marking-tells-the-workers-lock-from-a-reader %s' % lib.strip_closures(b.path), 'K3-guard', b.path,
                'the decision to mark a tree as used (a test of the reader\'s lock) also reads the worker\'s announcement: a lock held by the removal walk itself does not count as a reader',
                bool(ok_fields & fields), 'the decision reads %s' % sorted(f for f in fields if f.startswith('.Trees.')), b.loc(x))
+
+
+def lock_kept_while_the_database_is_shared(ctx, p):
+    """F76 (C11, C18). A tree reader handed out by `Db::get_tree` owns a reference to the database (Arc<DbInner>) and is not tied to
+    the lifetime of the handle: a client can keep its guard, drop the handle and open the directory again. If the dropped handle
+    gives the directory lock back on its own authority, the second open succeeds, its reader registry is empty, and a removal of
+    the tree is applied at once - under a held guard that still reads through the first instance's mappings. The explicit unlock
+    in the drop path is therefore made only by the last owner of the DbInner (Arc::strong_count == 1); otherwise the lock goes
+    with the lock file when the last reader is dropped."""
+    F = ctx.F
+    UNLOCK = ['fs2::FileExt::unlock', 'std::fs::File::unlock']
+    holders = sorted(a['path'] for a in F.raw['adts'] if a['path'] != 'db::Db' and any('Arc<db::DbInner>' in str(f['ty']) for v in a['variants'] for f in v['fields']))
+    ctx.ob(p + '0 other-owners-of-the-database', 'anchor', 'db::DbInner', 'the types besides Db that own a reference to DbInner were found (the tree reader)', len(holders) >= 1, str(holders))
+    n = 0
+    for b in sorted(F.bodies.values(), key=lambda x: x.path):
+        for s_ in b.call_sites(*UNLOCK):
+            if s_ not in b.normal_blocks() or '.DbInner.lock_file' not in lib.receiver_fields(b, b.term(s_), 0):
+                continue
+            n += 1
+            ok = False
+            for (sw, yes, no) in b.control_deps(s_):
+                pol = lib.eq_polarity(b, sw)
+                if not pol:
+                    continue
+                eq_t, ne_t, ops = pol
+                sl = backward_slice(b, [op_place(o) for o in ops if op_place(o)])
+                one = any(o.get('i') == 1 for o in ops) or any(c.get('i') == 1 for c in sl.consts)
+                if any(re.search(r'Arc::<.*>::strong_count$|Arc::strong_count$', c) for c in sl.calls) and '.Db.inner' in sl.fields and one and eq_t in yes and ne_t in no:
+                    ok = True
+            ctx.ob(p + 'a lock-released-only-by-the-last-owner %s' % b.path, 'K3-guard', b.path,
+                   'the directory lock is given back explicitly only when the handle is the sole owner of the DbInner (Arc::strong_count(&self.inner) == 1): while a tree reader still holds the database a second open is refused',
+                   ok, 'the unlock does not depend on the number of owners of the DbInner (other owners: %s)' % holders, b.loc(s_))
+    ctx.ob(p + '1 explicit-unlock-sites', 'anchor', 'db::Db::drop_inner', 'the explicit release of the directory lock was found', n >= 1, 'sites %d' % n)
+
+
+def index_entries_stored_whole(ctx, p):
+    """F77 (C01, C05). A reader that found nothing for an index page in the log overlay goes on to the mapped page; the record that
+    changes the page may be logged, flushed and enacted in between (nothing excludes the two). The page search copes with an entry
+    that changes as a whole (it re-reads and re-checks its candidate, F67) - not with one that is half written: bytes of the log
+    read straight into the mapping (`log.read(&mut chunk[i*8..])`, a BufReader copy that is made in two pieces when the entry
+    straddles its buffer) show the old entry's key bits with the new entry's address, and the lookup of a key nobody touches
+    follows it into a table that has no file. The applier of index pages therefore reads every entry into a local buffer and puts
+    it into the mapping with one 8-byte atomic store."""
+    F = ctx.F
+    n = 0
+    for pth, b in sorted(F.bodies.items()):
+        if not pth.startswith('index::') or '{closure' in pth:
+            continue
+        seeds = [t['d'][0] for bi, t in b.calls() if bi in b.normal_blocks() and call_matches(t, ['re:MmapMut as std::ops::Deref(Mut)?>::deref(_mut)?$', 're:MmapMut::as_(mut_)?ptr$', 're:<\\[u8\\]>::as_(mut_)?ptr$', 're:slice::<impl \\[T\\]>::as_(mut_)?ptr$'])
+                 and '.IndexTable.map' in backward_slice(b, [op_place(a) for a in t['a'] if op_place(a) is not None]).fields]
+        reads = [bi for bi, t in b.calls() if bi in b.normal_blocks() and call_matches(t, ["re:^log::LogReader::<'a>::read$", 're:LogReader.*::read$'])]
+        if not seeds or not reads:
+            continue
+        n += 1
+        tainted = lib.forward_taint(b, seeds)
+        direct = [bi for bi in reads if any(op_place(a) is not None and op_place(a)[0] in tainted for a in b.term(bi)['a'][1:])]
+        ctx.ob(p + 'a log-bytes-never-read-straight-into-the-page %s' % pth, 'K4-provenance', pth,
+               'no destination of LogReader::read in the applier of index pages derives from the mapping (an entry that straddles the reader\'s buffer would be written in two pieces under a concurrent page search)',
+               not direct, 'LogReader::read is handed a slice of the mapped page', b.loc(direct[0]) if direct else b.loc())
+        stores = [bi for bi, t in b.calls() if bi in b.normal_blocks() and call_matches(t, ['re:Atomic.*::store$', 're:ptr::write_volatile$', 're:ptr::mut_ptr::<impl \\*mut T>::write_volatile$'])
+                  and any(op_place(a) is not None and op_place(a)[0] in tainted for a in t['a'][:1])]
+        other = [bi for bi, t in b.calls() if bi in b.normal_blocks() and call_matches(t, ['re:copy_from_slice$', 're:ptr::copy(_nonoverlapping)?$', 're:clone_from_slice$', 're:slice::<impl \\[T\\]>::fill$'])
+                 and any(op_place(a) is not None and op_place(a)[0] in tainted for a in t['a'][:1])]
+        ctx.ob(p + 'b entry-put-into-the-page-with-one-store %s' % pth, 'K4-provenance', pth,
+               'the applier writes an index entry into the mapped page with one 8-byte atomic (or volatile) store, and with nothing else',
+               bool(stores) and not other, 'atomic stores into the page: %d, byte copies into the page: %d' % (len(stores), len(other)), b.loc((stores or other or [0])[0]))
+    ctx.ob(p + '0 index-page-applier', 'anchor', 'index::IndexTable', 'the function that applies logged index entries to the mapped page was found', n >= 1, 'found %d' % n)
